@@ -54,6 +54,8 @@ type Spec[C any] struct {
 	// and abort the process (exit 86) when one call runs longer than GuardTimeout.
 	Guard        bool
 	GuardTimeout time.Duration
+	// Finish runs just before the evidence part is written (e.g. to add notes).
+	Finish func(ev *Ev[C])
 	// Samples to keep (default 6)
 	NSamples int
 }
@@ -350,6 +352,9 @@ func Main[C any](t *testing.T, s Spec[C]) {
 	}
 	completed := false
 	writePart := func() {
+		if s.Finish != nil {
+			s.Finish(ev)
+		}
 		ev.mu.Lock()
 		defer ev.mu.Unlock()
 		n := s.NSamples
